@@ -198,18 +198,23 @@ class TextTie:
                                         if oracle_probs else ""), "script": script[:1500]})
 
 
+def text_script(sysd, events):
+    return c13_lib.pv_lines(sysd, emu_lib.model_lines(sysd, events, True))
+
+
 def text_models(cases):
-    """Run the text-level driver on every case: {script text: files or None}"""
+    """Run the text-level driver on every case: {text-level script (it names the physical CPU ids and the
+    application ids, which the plain script does not): (files or None, script)}"""
     lines, spans = [], []
     for (sysd, events, exp, why) in cases:
-        ls = c13_lib.pv_lines(sysd, emu_lib.model_lines(sysd, events, True))
+        ls = text_script(sysd, events)
         spans.append((len(lines), len(lines) + len(ls)))
         lines += ls
     _, out, _ = engine.run_lines(engine.exe("drv_emu"), lines, timeout=3000)
     tm = {}
-    for (sysd, events, exp, why), (a, b) in zip(cases, spans):
-        tm[emu_lib.script_text(sysd, events, True)] = (c13_lib.model_files(out[b - 1]) if b - 1 < len(out) else None,
-                                                       "\n".join(lines[a:b]))
+    for (a, b) in spans:
+        script = "\n".join(lines[a:b])
+        tm[script] = (c13_lib.model_files(out[b - 1]) if b - 1 < len(out) else None, script)
     return tm
 
 
@@ -289,7 +294,7 @@ def check(res, tier, replay=None):
 
         def post(tracedir, sysd, events):
             probs = emu_lib.pv_oracle(tracedir, sysd, events)
-            mf, script = tm.get(emu_lib.script_text(sysd, events, True), (None, ""))
+            mf, script = tm.get("\n".join(text_script(sysd, events)), (None, ""))
             text.compare("mixed" + (":wide" if len(sysd.looms) > 2 else ""), tracedir, mf, script, probs)
             return probs
         found = c04.run_cases(res, prep, cases, "c13", None, post=post)
